@@ -427,6 +427,45 @@ def check_overflow_test_on_every_path(run, ctx):
     return n, anchors
 
 
+def check_replacement_before_overflow_test(run, ctx):
+    """C04-E2: where a store first drops the old entry of the same key, it does so before the size is compared with the
+    limit - otherwise re-storing a cached key into a full cache evicts a victim although nothing overflows"""
+    C = Core(ctx)
+    n = 0
+    for flav, adt in FLAVOURS:
+        for m in ('insert', 'insert_with_memory'):
+            fn = C.method(adt, m)
+            if fn is None:
+                continue
+            for p in range(6):
+                a = {'policy': p, 'limit': 1, 'max_memory': 1 if m == 'insert_with_memory' else 0, 'ttl': 0}
+                w = C.weigher(a, {}, root=fn)
+                sp = w.spec(fn)
+                over = [nd for nd in sp.nodes if 'cmp:overflow' in w.kinds(fn, nd[0])]
+                n += 1
+                key = '%s/%s/%s' % (flav, m, POL[p])
+                if not over:
+                    continue
+                after = sp.forward_from(over)
+                late = [nd for nd in after if nd not in over and 'Srepl' in w.kinds(fn, nd[0]) and 'cmp:oversize' not in w.kinds(fn, nd[0])]
+                # the sync oversize branch takes the just-stored key out again: that is not a replacement
+                late = [nd for nd in late if not _dominated_by_oversize(C, fn, sp, w, nd)]
+                if late:
+                    run.bad('C04-E2', '%s/%s/replaces-after-limit-test' % (flav, m), '%s compares the size with the limit while the old entry of the key being stored still counts, and drops '
+                            'that entry afterwards (%s): re-storing a cached key into a full cache evicts another entry although nothing overflows' % (fn.name, fn.loc(late[0][0])),
+                            site='%s (%s)' % (fn.name, fn.loc(late[0][0])), oracle='a store that does not overflow removes nothing')
+                else:
+                    run.ok('C04-E2', key, 'no own-key replacement after the overflow test')
+    return n
+
+
+def _dominated_by_oversize(C, fn, sp, w, nd):
+    """is the node only reachable through a block carrying the oversize comparison's true edge? approximated by:
+    the oversize comparison lies on every path from entry to the node and the node leads to return without storing"""
+    tail = sp.forward_from([nd])
+    return not any('S+' in w.kinds(fn, x[0]) for x in tail if x != nd)
+
+
 def check_store_pairing(run, ctx):
     """C04-P4 store subset of queue: a completed store leaves the key in both or in neither"""
     rows, anchors = store_rows(ctx)
@@ -633,8 +672,8 @@ def check_memory_forms(run, ctx):
             # scenario: oversize true => returns with no net entry and no eviction of others
             for val in (1, 0):
                 orc = {(xid, bi, si): (val if SYM[op] in ('>', '>=') and ra == 'NEW_SIZE' or SYM[op] in ('<', '<=') and rb == 'NEW_SIZE' else 1 - val)}
-                for p in range(6):
-                    aa = {'policy': p, 'limit': 0, 'max_memory': 1, 'ttl': 0}
+                for p, lim in [(p_, l_) for p_ in range(6) for l_ in (0, 1)]:
+                    aa = {'policy': p, 'limit': lim, 'max_memory': 1, 'ttl': 0}
                     w = C.weigher(aa, orc, root=fn)
                     sp = w.spec(fn)
                     for n_, vs in sp.path_totals().items():
@@ -647,12 +686,12 @@ def check_memory_forms(run, ctx):
                                             '(stored %d, own key removed %d, other entries removed %d, queue +%d -%d, fit tests %d) in %s' % (d['S+'], d['Srepl'], d['S-'], d['Q>'], d['Qrem'], d['cmp:fit'], fn.name), site=fn.name,
                                             oracle='oversize => no net entry, no other eviction')
                                 else:
-                                    run.ok('C05-K1', '%s/%s/oversize' % (key, POL[p]), 'no net entry (stored %d, taken out again %d), no other entry removed, eviction loop not entered' % (d['S+'], d['Srepl']))
+                                    run.ok('C05-K1', '%s/%s/limit=%d/oversize' % (key, POL[p], lim), 'no net entry (stored %d, taken out again %d), no other entry removed, eviction loop not entered' % (d['S+'], d['Srepl']))
                             else:
                                 if d['S+'] >= 1 and d['cmp:fit'] < 1:
                                     run.bad('C05-K2', '%s/%s/fit-test-skipped' % (key, POL[p]), 'a value that is not oversize is stored on a path without the fit test (%s)' % fn.name, site=fn.name)
                                 else:
-                                    run.ok('C05-K2', '%s/%s/fit-on-path' % (key, POL[p]), 'fit test on the path')
+                                    run.ok('C05-K2', '%s/%s/limit=%d/fit-on-path' % (key, POL[p], lim), 'fit test on the path')
         if len(fit) != 1:
             run.bad('C05-K2', key + '/unrecognised-form', 'expected one comparison of the summed sizes with max_memory in %s, found %d' % (fn.name, len(fit)), site=fn.name,
                     oracle='fit test MEM_SUM(+NEW_SIZE) <= MAX_MEM present')
@@ -980,7 +1019,16 @@ def analyse_selector(ctx, body):
                     # age factor: 1.0 without ttl, clamp(1 - elapsed/ttl) with
                     has_one = any(strip_casts(d)[0] == 'const' and strip_casts(d)[1] == 1.0 for d in defs)
                     has_clamp = any(any(c[1].endswith('::max') for c in calls_in(d)) and any(c[1].endswith('::min') for c in calls_in(d)) for d in defs)
-                    kind = 'AGE' if (has_one and has_clamp) else 'AGE?'
+                    # the consumed fraction elapsed/ttl must be a floating-point quotient (an integer quotient is 0 for every unexpired entry)
+                    float_div = False
+                    for d in defs:
+                        for x in walk(d):
+                            if x[0] == 'bin' and x[1] == 'Div':
+                                def _is_float(y):
+                                    return (y[0] == 'cast' and y[2] in ('f64', 'f32')) or (y[0] == 'call' and y[1].endswith('_f64')) or (y[0] == 'const' and isinstance(y[1], float)) \
+                                        or (y[0] == 'phi')
+                                float_div = _is_float(x[2]) and _is_float(x[3])
+                    kind = 'AGE' if (has_one and has_clamp and float_div) else 'AGE?'
                 detail = txt
             fi.append((kind, detail))
         info['score'] = fi
